@@ -1,5 +1,6 @@
+import IbModel.Model.Engine
 /-!
-# Model of `src/window.rs` and `src/helpers/tumbling.rs` (C13)
+# Model of `src/window.rs`, `src/helpers/tumbling.rs`, `src/helpers/timestamped.rs` and `key_by` (C13)
 
 `u64` values are `Nat`s below `2^64`; every arithmetic step is the **checked** operation a build with
 `overflow-checks = true` / `debug-assertions = true` performs (the correspondence harness is compiled
@@ -14,11 +15,19 @@ arithmetic, no debug assertions; division by zero still panics).
 `tumble` ↔ the linked ironbeam crate (overflow-checking harness build), request `TUMBLE`;
 `tumbleWrapping` ↔ the text of the current `src/window.rs` compiled as crate `harness/relwin`
 (`overflow-checks = false`, `debug-assertions = false`, i.e. release arithmetic), request `TUMBLE-WRAP`;
-`Legacy.tumble` / `Legacy.tumbleWrapping` ↔ the text of the pre-fix `src/window.rs`, taken from the repo's git
-history (parent of the commit that introduced `let off = offset_ms % size_ms;`), compiled as `harness/chkwin`
-(checking) / `harness/relwin` (release), requests `TUMBLE-LEGACY` / `TUMBLE-LEGACY-WRAP`.  When the git history
-is not available the harness emits no `TUMBLE-LEGACY*` line and counts `legacy-source:unavailable`; the
-`Legacy.*` theorems are then **unvalidated** for that run (the evidence shows the counter).
+`Legacy.tumble` / `Legacy.tumbleWrapping` ↔ the VENDORED pre-fix text `harness/chkwin/legacy_window.rs` (verbatim
+`impl Window` + `div_floor` of `src/window.rs` at `dfa2e3374cfa`, the parent of the fix commit `a2578065dcd1`; no
+`git` at build time), compiled as `harness/chkwin` (checking) / `harness/relwin` (release), requests
+`TUMBLE-LEGACY` / `TUMBLE-LEGACY-WRAP`.  A source copy that is missing or does not compile stand-alone never breaks
+the build: the harness then writes a `VALIDATION INCOMPLETE` note and `validation:…=NOT-VALIDATED` counters into the
+evidence naming the theorems that were proved but not validated in that run.
+
+`Window` gets its `DecidableEq` instance FROM `Window.eqImpl` (the transliterated `impl PartialEq`), through the
+proof that `eqImpl` is field-wise equality: the association-list `group_by_key` below therefore compares window keys
+by running `eqImpl`, and a change of `eqImpl` that breaks `a.eqImpl b ↔ a = b` breaks this file, not just one theorem.
+`splitVec` / `sourceParts` are written with the ENGINE model's `chunksOf` / `clampParts` (`Model/Engine.lean`, the
+definitions C01–C08 use); `Proofs/WindowEngine.lean` shows that the bespoke `groupPipeline` below is what the engine
+model (`execSeq` / `execPar` after the planner model `optimise`) computes with C04's `group_by_key` node.
 
 The grouping helpers are `map` followed by `group_by_key` (`src/helpers/keyed.rs`): a per-partition
 `HashMap<K, Vec<V>>` built with `entry(k).or_default().push(v)` and a merge that walks the
@@ -34,7 +43,7 @@ def U64 : Nat := 18446744073709551616
 structure Window where
   start : Nat
   stop : Nat
-deriving DecidableEq, Repr
+deriving Repr
 
 /-- `Timestamped<T> { ts, value }` -/
 structure Timestamped (α : Type) where
@@ -44,6 +53,20 @@ deriving DecidableEq, Repr
 
 /-- `impl PartialEq for Window`: `self.start == other.start && self.end == other.end` -/
 def Window.eqImpl (a b : Window) : Bool := a.start == b.start && a.stop == b.stop
+
+/-- `impl PartialEq` is field-wise equality (property theorem `window_eq_iff` restates this) -/
+theorem Window.eqImpl_iff (a b : Window) : a.eqImpl b = true ↔ a = b := by
+  cases a; cases b; simp [Window.eqImpl]
+
+/-- `Eq` for `Window` AS THE CODE DECIDES IT: the instance every `HashMap<Window, _>` / `HashMap<(K, Window), _>`
+    of the model uses runs `eqImpl` -/
+instance : DecidableEq Window := fun a b => decidable_of_iff (a.eqImpl b = true) (Window.eqImpl_iff a b)
+
+/-- `Window::new(start, end)` in a build with debug assertions: `debug_assert!(end >= start)` -/
+def Window.new? (start stop : Nat) : Option Window := if stop ≥ start then some ⟨start, stop⟩ else none
+
+/-- `Window::new` in a release build (no assertion): any pair is accepted -/
+def Window.newRelease (start stop : Nat) : Window := ⟨start, stop⟩
 
 /-- `impl Hash for Window`: the words fed to the hasher, in order (`start.hash; end.hash`) -/
 def Window.hashWords (a : Window) : List Nat := [a.start, a.stop]
@@ -180,19 +203,15 @@ end GroupBy
 
 /-! ## `VecOpsImpl::split` and the partition count of `exec_par` -/
 
-/-- `v.chunks(c)` for `c > 0` (fuel = length bound) -/
-def chunksFuel {α : Type} : Nat → Nat → List α → List (List α)
-  | 0, _, _ => []
-  | fuel + 1, c, xs => if xs.isEmpty then [] else xs.take c :: chunksFuel fuel c (xs.drop c)
-
-/-- `split(data, n)`: one chunk if `n ≤ 1 ∨ len ≤ 1`, else contiguous chunks of `ceil(len/n)` -/
+/-- `split(data, n)`: one chunk if `n ≤ 1 ∨ len ≤ 1`, else contiguous chunks (`v.chunks(c)`) of `c = ceil(len/n)`;
+    `IB.chunksOf` is the engine model's `slice::chunks` (fuel = length), the same definition `vecSplit` of C01–C08 uses -/
 def splitVec {α : Type} (xs : List α) (n : Nat) : List (List α) :=
   if n ≤ 1 ∨ xs.length ≤ 1 then [xs]
-  else chunksFuel xs.length ((xs.length + n - 1) / n) xs
+  else IB.chunksOf ((xs.length + n - 1) / n) xs.length xs
 
-/-- `exec_par`: `parts = partitions.max(1).min(len.max(1))`, then `split` -/
+/-- `exec_par`: `parts = partitions.max(1).min(len.max(1))` (`IB.clampParts`), then `split` -/
 def sourceParts {α : Type} (xs : List α) (partitions : Nat) : List (List α) :=
-  splitVec xs (min (max partitions 1) (max xs.length 1))
+  splitVec xs (IB.clampParts partitions xs.length)
 
 /-! ## the windowing helpers of `helpers/tumbling.rs` -/
 
@@ -222,6 +241,10 @@ def toTimestamped (xs : List (Nat × β)) : List (Timestamped β) :=
 /-- `helpers/timestamped.rs::attach_timestamps`: `map(move |t| Timestamped::new(ts_fn(t), t.clone()))` -/
 def attachTimestamps (tsFn : α → Nat) (xs : List α) : List (Timestamped α) :=
   xs.map (fun t => ⟨tsFn t, t⟩)
+
+/-- `helpers/keyed.rs::key_by`: `map(move |t| (key_fn(t), t.clone()))` -/
+def keyBy {α κ : Type} (keyFn : α → κ) (xs : List α) : List (κ × α) :=
+  xs.map (fun t => (keyFn t, t))
 
 /-- key of unkeyed `key_by_window`: `Window::tumble(ev.ts, size, off)` -/
 def windowOf (size off : Nat) (ev : Timestamped β) : Option Window := tumble ev.ts size off
@@ -267,6 +290,31 @@ def groupByWindow (size off : Nat) (parts : List (List (Timestamped β))) :
 def groupByKeyAndWindow (size off : Nat) (parts : List (List (κ × Timestamped β))) :
     Option (List ((κ × Window) × List β)) :=
   groupPipeline (keyWindowKey size off) parts
+
+/-! ### the same helpers in a RELEASE build (`tumbleWrapping`: no panic for `size ≥ 1`, possibly a garbage window).
+Only `Window::tumble` itself is compared with a release compilation (`TUMBLE-WRAP`); the pipeline around it is the
+same `map` + `group_by_key`. -/
+
+def windowKeyRelease (size off : Nat) : Timestamped β → Option (Window × β) :=
+  keyed (fun ev => tumbleWrapping ev.ts size off) (fun ev => ev.value)
+
+def groupByWindowRelease (size off : Nat) (parts : List (List (Timestamped β))) :
+    Option (List (Window × List β)) :=
+  groupPipeline (windowKeyRelease size off) parts
+
+/-! ### what the derived observations of the harness show of a grouping (`gbwl`, `gbws`, `gbwj`) -/
+
+/-- `combine_values_lifted(Sum)` after `group_by_window`: one `(window, sum)` row per group -/
+def sumGroups (gs : List (κ × List Int)) : List (κ × Int) :=
+  gs.map (fun g => (g.1, g.2.foldl (· + ·) 0))
+
+/-- `collect_seq_sorted` / `collect_par_sorted_by_key`: rows ordered by `impl Ord for Window` (stable) -/
+def sortByWindow (gs : List (Window × List β)) : List (Window × List β) :=
+  gs.mergeSort (fun a b => a.1.cmpImpl b.1 != .gt)
+
+/-- `join_inner`: every pair of a left and a right row with equal keys (left-major) -/
+def joinInner {γ : Type} (l : List (κ × β)) (r : List (κ × γ)) : List (κ × (β × γ)) :=
+  l.flatMap (fun a => (r.filter (fun b => b.1 = a.1)).map (fun b => (a.1, (a.2, b.2))))
 
 end Helpers
 
